@@ -3574,6 +3574,10 @@ def _op_rg(self, want, vid, what, *a):
     v = _view(self, vid, 'R')
     e.cls = what
     if what == 'release':
+        if v.detached:
+            # release() is detach() in this implementation (doc/program-dom.xml): a second detach raises INVALID_STATE_ERR
+            e.codes = {INVALID_STATE}; e.cls = 'release-detached'
+            return e
         del self.views[vid]
         return e
     if v.detached:
